@@ -598,7 +598,7 @@ def o_c14_unseen(run):
             continue
         hs = [w for w in r.lhs.split() if w.startswith('x-client-id=')]
         c = None
-        if len(hs) == 1:
+        if hs:            # a repeated header: the handler reads the first one
             try:
                 import uuid as _uuid
                 c = str(_uuid.UUID(bytes.fromhex(hs[0].split('=', 1)[1]).decode().strip()))     # simple / braced / urn / upper-case forms name the same id
